@@ -840,9 +840,21 @@ func main() {
 		desc := map[string]any{"op": "ratio", "r1": fmt.Sprintf("%#x=%g", r1, math.Float64frombits(r1)), "r2": fmt.Sprintf("%#x=%g", r2, math.Float64frombits(r2)), "trace_id": t.String()}
 		guard(desc, func() {
 			d1, d2 := decide(r1, t), decide(r2, t)
-			desc["d1"], desc["d2"] = d1, d2
+			// another trace id with the same 63-bit coordinate: other high half, usually the ignored low bit flipped;
+			// now and then one with a different coordinate but the same high half
+			t2 := t
+			binary.BigEndian.PutUint64(t2[0:8], r.U64())
+			if r.Chance(2, 3) {
+				t2[15] ^= 1
+			}
+			if r.Chance(1, 8) {
+				t2 = t
+				binary.BigEndian.PutUint64(t2[8:16], r.U64())
+			}
+			d1b := decide(r1, t2)
+			desc["d1"], desc["d2"], desc["trace_id_2"], desc["d1_2"] = d1, d2, t2.String(), d1b
 			w.Tally(fmt.Sprintf("ratio:d1=%v,d2=%v", d1, d2))
-			w.Add(vgen.App("CRatio", vgen.N(r1), vgen.N(r2), vgen.Hx(t[:]), vgen.Bool(d1), vgen.Bool(d2)), desc, kind, d1 != d2 || r1 == r2)
+			w.Add(vgen.App("CRatio", vgen.N(r1), vgen.N(r2), vgen.Hx(t[:]), vgen.Bool(d1), vgen.Bool(d2), vgen.Hx(t2[:]), vgen.Bool(d1b)), desc, kind, d1 != d2 || r1 == r2)
 		})
 	}
 
